@@ -123,7 +123,7 @@ def run(chk):
     sc = [('docs', {'Budget': 3 if quick else 4}),
           ('blank', {'Budget': 3 if quick else 4, 'TextPool': [' ', '\n', 'a', ' \n '], 'ComPool': [], 'MathKinds': ['$'], 'MEnvNames': [],
                      'VerbNames': ['verbatim', 'lstlisting'], 'VerbBodies': [' ', '\n', 'x'], 'Leaves': [], 'MaxSib': 3}),
-          ('deep', {'Budget': 4 if quick else 6, 'TextPool': ['t', ' '], 'ComPool': [], 'MathKinds': ['$'], 'MEnvNames': [],
+          ('deep', {'Budget': 4 if quick else 5, 'TextPool': ['t', ' '], 'ComPool': [], 'MathKinds': ['$'], 'MEnvNames': [],
                     'VerbNames': [], 'Leaves': [], 'CmdNames': ['a'], 'EnvNames': ['e'], 'Labels': [''], 'MaxSib': 2, 'MaxDepth': 4, 'MaxArgs': 1})]
     for label, pools in sc:
         recs, p = D.generate(chk, label, pools, INV)
